@@ -766,8 +766,9 @@ func (c *Client) Authenticate(username, password string) (User, error) {
 	c.mu.RLock()
 	au, ok := c.authCache[username]
 	c.mu.RUnlock()
-	if ok {
-		// verify the password using the cached salt and hash
+	if ok && au.bhash == userInfo.Hash {
+		// verify the password using the cached salt and hash; an entry derived from a
+		// hash the user no longer has (a password change arrived meanwhile) is not honoured
 		if bytes.Equal(c.hashWithSalt(au.salt, password), au.hash) {
 			return userInfo, nil
 		}
